@@ -17,6 +17,8 @@ def fresh_db():
     db.AddUnitBase("Q", "default unit", "du")
     for u in ("sc", "af"):
         db.AddUnit("Q", "unit " + u, u, MakeBaseToCustomary(*UNITS[u]), MakeCustomaryToBase(*UNITS[u]))
+    # a unit with a legacy spelling ('1000ft3' is rewritten to 'Mcf'), scaled by 1/4
+    db.AddUnit("Q", "unit Mcf", "Mcf", MakeBaseToCustomary(0.0, 1.0, 4.0, 0.0), MakeCustomaryToBase(0.0, 1.0, 4.0, 0.0))
     return db
 
 
@@ -163,6 +165,29 @@ def main(tier):
                            "note": "" if isinstance(got[0], bool) else got[0]})
     finally:
         UnitDatabase.PopSingleton()
+    # registering a category never yields a default unit / default value that violates its own constraints
+    db = fresh_db()
+    UnitDatabase.PushSingleton(db)
+    cons = []
+    try:
+        for cfg in cfgs:
+            for valid in (None, ["sc"], ["1000ft3"], ["1000ft3", "af"], ["af", "1000ft3"], ["du", "sc"]):
+                kw = {k: v for k, v in (("min_value", float(cfg["minv"]) if cfg["min"] else None), ("max_value", float(cfg["maxv"]) if cfg["max"] else None)) if v is not None}
+                if cfg["minx"] or cfg["maxx"]:
+                    continue          # exclusive limits require an explicit default value (covered by add_category above)
+                o = P.outcome(lambda: db.AddCategory("k", "Q", valid_units=list(valid) if valid is not None else None, override=True, **kw))
+                if o[0] != "ok":
+                    continue
+                du = db.GetDefaultUnit("k")
+                vu = list(db.GetValidUnits("k")) if valid is not None else list(db.GetUnits("Q"))
+                s_ = P.outcome(Scalar, "k")
+                cons.append({"op": "CatConsistent", "call": "AddCategory(valid_units=%r, %r)" % (valid, kw), "du_registered": du in db.GetUnits("Q"),
+                             "du_in_valid": du in vu, "scalar_built": s_[0] == "ok", "scalar_valid": s_[0] == "ok" and bool(s_[1].IsValid()),
+                             "scalar_unit_is_du": s_[0] == "ok" and s_[1].GetUnit() == du,
+                             "check_default": P.outcome(db.CheckCategoryUnit, "k", du)[0] == "ok"})
+    finally:
+        UnitDatabase.PopSingleton()
+    common.judge_trace(rep, bd, cons, "categories registered with limits and valid units (legacy spellings first, base unit absent): consistent defaults", tag="consistent")
     trace = os.path.join(bd, "long.ndjson")
     with open(trace, "w") as f:
         for e in events:
